@@ -137,6 +137,12 @@ fn f32s(x: f32) -> String {
     format!("f{:08x}", x.to_bits())
 }
 
+/// `[., .]`-style arrays: an array whose entries are all missing is written `.` in VCF text when
+/// it has one entry, which is the missing value itself; rendered alike on both sides.
+fn arr(tag: &str, items: Vec<String>) -> String {
+    if items.iter().all(|x| x == ".") && items.len() == 1 { ".".into() } else { format!("{tag}:{}", items.join(",")) }
+}
+
 fn oi(v: &Option<i32>) -> String {
     v.map(|x| x.to_string()).unwrap_or_else(|| ".".into())
 }
@@ -161,6 +167,11 @@ fn gt_text(alleles: impl Iterator<Item = (Option<usize>, bool)>) -> String {
     s
 }
 
+/// A haploid missing genotype is the text `.`, i.e. the missing value: rendered alike.
+fn gt_val(text: String) -> String {
+    if text == "." { text } else { format!("gt:{text}") }
+}
+
 fn val_expected(v: &Val) -> String {
     match v {
         Val::Int(n) => format!("i:{n}"),
@@ -168,10 +179,10 @@ fn val_expected(v: &Val) -> String {
         Val::Flag => "flag".into(),
         Val::Char(c) => format!("c:{c}"),
         Val::Str(s) => format!("s:{s}"),
-        Val::Gt(a) => format!("gt:{}", gt_text(a.iter().copied())),
+        Val::Gt(a) => gt_val(gt_text(a.iter().copied())),
         // a one-element array and a scalar are the same VCF text: rendered alike
-        Val::IntArr(v) => format!("i:{}", v.iter().map(oi).collect::<Vec<_>>().join(",")),
-        Val::FloatArr(v) => format!("f:{}", v.iter().map(of).collect::<Vec<_>>().join(",")),
+        Val::IntArr(v) => arr("i", v.iter().map(oi).collect()),
+        Val::FloatArr(v) => arr("f", v.iter().map(of).collect()),
         Val::StrArr(v) => format!("s:{}", v.join(",")),
     }
 }
@@ -212,8 +223,8 @@ fn ivalue_observed(v: &IValue) -> String {
         IValue::Flag => "flag".into(),
         IValue::Character(c) => format!("c:{c}"),
         IValue::String(s) => format!("s:{s}"),
-        IValue::Array(IArray::Integer(v)) => format!("i:{}", v.iter().map(oi).collect::<Vec<_>>().join(",")),
-        IValue::Array(IArray::Float(v)) => format!("f:{}", v.iter().map(of).collect::<Vec<_>>().join(",")),
+        IValue::Array(IArray::Integer(v)) => arr("i", v.iter().map(oi).collect()),
+        IValue::Array(IArray::Float(v)) => arr("f", v.iter().map(of).collect()),
         IValue::Array(IArray::Character(v)) => format!("c:{}", v.iter().map(|c| c.map(String::from).unwrap_or_else(|| ".".into())).collect::<Vec<_>>().join(",")),
         IValue::Array(IArray::String(v)) => format!("s:{}", v.iter().map(|c| c.clone().unwrap_or_else(|| ".".into())).collect::<Vec<_>>().join(",")),
     }
@@ -227,10 +238,10 @@ fn svalue_observed(v: &SValue) -> String {
         SValue::String(s) => format!("s:{s}"),
         SValue::Genotype(g) => {
             let a: &[Allele] = g.as_ref();
-            format!("gt:{}", gt_text(a.iter().map(|x| (x.position(), x.phasing() == Phasing::Phased))))
+            gt_val(gt_text(a.iter().map(|x| (x.position(), x.phasing() == Phasing::Phased))))
         }
-        SValue::Array(SArray::Integer(v)) => format!("i:{}", v.iter().map(oi).collect::<Vec<_>>().join(",")),
-        SValue::Array(SArray::Float(v)) => format!("f:{}", v.iter().map(of).collect::<Vec<_>>().join(",")),
+        SValue::Array(SArray::Integer(v)) => arr("i", v.iter().map(oi).collect()),
+        SValue::Array(SArray::Float(v)) => arr("f", v.iter().map(of).collect()),
         SValue::Array(SArray::Character(v)) => format!("c:{}", v.iter().map(|c| c.map(String::from).unwrap_or_else(|| ".".into())).collect::<Vec<_>>().join(",")),
         SValue::Array(SArray::String(v)) => format!("s:{}", v.iter().map(|c| c.clone().unwrap_or_else(|| ".".into())).collect::<Vec<_>>().join(",")),
     }
@@ -343,7 +354,8 @@ const WORD: &[u8] = b"ABCDEFGHIJKLMNOPQRSTUVWXYZabcdefghijklmnopqrstuvwxyz012345
 
 fn word(rng: &mut Rng, lo: usize, hi: usize) -> String {
     let n = rng.urange(lo, hi);
-    (0..n).map(|_| *rng.pick(WORD) as char).collect()
+    // never starts with '.', so a one-character word is never the missing value
+    (0..n).map(|i| if i == 0 { *rng.pick(&WORD[..62]) as char } else { *rng.pick(WORD) as char }).collect()
 }
 
 fn int(rng: &mut Rng) -> i32 {
@@ -439,7 +451,9 @@ fn rand_info(rng: &mut Rng, n_alt: usize) -> Vec<(String, Val)> {
                 if n_alt == 0 {
                     continue;
                 }
-                Val::IntArr((0..n_alt).map(|_| if rng.chance(1, 8) { None } else { Some(int(rng)) }).collect())
+                // an INFO key whose value is missing altogether (`AC=.`) makes the BCF writer panic
+                // (todo!): see the witness class `witness-info-missing-value`; entry 0 is always present
+                Val::IntArr((0..n_alt).map(|i| if i > 0 && rng.chance(1, 4) { None } else { Some(int(rng)) }).collect())
             }
             "DB" | "H2" => Val::Flag,
             "MQ" => Val::Float(flt(rng)),
@@ -456,13 +470,16 @@ fn rand_info(rng: &mut Rng, n_alt: usize) -> Vec<(String, Val)> {
     out
 }
 
-fn rand_gt(rng: &mut Rng, n_alt: usize) -> Val {
-    let ploidy = *rng.pick(&[1usize, 2, 2, 2, 2, 3]);
+/// Common-model genotype: `ploidy` alleles; a phased separator never precedes a missing allele
+/// (see the witness class `witness-gt-phased-missing-allele`).
+fn rand_gt(rng: &mut Rng, n_alt: usize, ploidy: usize) -> Val {
     let phased_all = rng.chance(1, 3);
     Val::Gt(
         (0..ploidy)
             .map(|i| {
-                let a = if rng.chance(1, 8) { None } else { Some(rng.usize_below(n_alt + 1)) };
+                // a lone `.` is the missing value in VCF text, and the BCF writer rejects a missing GT
+                // ("invalid input parameter"): a haploid genotype always names its allele
+                let a = if rng.chance(1, 8) && !(phased_all && i > 0) && ploidy > 1 { None } else { Some(rng.usize_below(n_alt + 1)) };
                 (a, i > 0 && phased_all)
             })
             .collect(),
@@ -519,25 +536,54 @@ fn rand_record(rng: &mut Rng, contigs: &[(String, usize)], n_samples: usize, ful
         if format.is_empty() {
             format.push("DP".to_string());
         }
-        for _ in 0..n_samples {
+        let ploidy = *rng.pick(&[1usize, 2, 2, 2, 2, 3]);
+        // Number=. arrays have one length per record: piping a lazily read BCF record whose per-sample
+        // vectors differ in length into the BCF writer corrupts the stream (witness class
+        // `witness-sample-arrays-of-unequal-length`)
+        let (xv_len, xg_len) = (rng.urange(1, 5), rng.urange(1, 4));
+        // a sample column that is `.` altogether (single FORMAT key, value missing) is written as an
+        // empty column when a lazily read VCF record is piped into the VCF writer (witness class
+        // `witness-sample-column-missing`)
+        let single_key = format.len() == 1;
+        for si in 0..n_samples {
             let mut row: Vec<Option<Val>> = Vec::new();
             for k in &format {
-                let missing = k != "GT" && rng.chance(1, 10);
+                // the BCF writer rejects a missing per-sample value of a String or Float-array field
+                // ("missing String values"): not a value BCF (as noodles writes it) can represent
+                // an Integer-array field that is missing in *every* sample of a record desynchronises the
+                // BCF stream (see the witness class `witness-format-int-array-missing-in-all-samples`):
+                // the first sample always has a value
+                // ... and a value may only be missing where the other samples' vectors have one entry (same
+                // root cause as `witness-sample-arrays-of-unequal-length`: `.` is a vector of length one)
+                let vec_len = match k.as_str() {
+                    "AD" => n_alt + 1,
+                    "PL" => (n_alt + 1) * (n_alt + 2) / 2,
+                    "XV" => xv_len,
+                    _ => 1,
+                };
+                let keep = matches!(k.as_str(), "GT" | "XG" | "XT") || (si == 0 && matches!(k.as_str(), "AD" | "PL" | "XV")) || vec_len > 1;
+                let missing = !keep && !single_key && rng.chance(1, 10);
                 if missing {
                     row.push(None);
                     continue;
                 }
                 let v = match k.as_str() {
-                    "GT" => rand_gt(rng, n_alt),
+                    // samples of one record share the ploidy or are haploid (mixed ploidies >= 2: see
+                    // the witness class `witness-gt-mixed-ploidy`)
+                    "GT" => {
+                        let p = if rng.chance(1, 6) { 1 } else { ploidy };
+                        rand_gt(rng, n_alt, p)
+                    }
                     "GQ" | "DP" => Val::Int(int(rng).abs()),
-                    "AD" => Val::IntArr((0..n_alt + 1).map(|_| if rng.chance(1, 10) { None } else { Some(int(rng).abs()) }).collect()),
+                    // entry 0 is always present: `[.]` is the text `.`, i.e. the missing value (see vec_len above)
+                    "AD" => Val::IntArr((0..n_alt + 1).map(|i| if i > 0 && rng.chance(1, 8) { None } else { Some(int(rng).abs()) }).collect()),
                     "PL" => {
                         let g = (n_alt + 1) * (n_alt + 2) / 2;
                         Val::IntArr((0..g).map(|_| Some(rng.range(0, 70000) as i32)).collect())
                     }
-                    "XV" => Val::IntArr((0..rng.urange(1, 5)).map(|_| Some(int(rng))).collect()),
+                    "XV" => Val::IntArr((0..xv_len).map(|_| Some(int(rng))).collect()),
                     "XW" => Val::Float(flt(rng)),
-                    "XG" => Val::FloatArr((0..rng.urange(1, 4)).map(|_| Some(flt(rng))).collect()),
+                    "XG" => Val::FloatArr((0..xg_len).map(|_| Some(flt(rng))).collect()),
                     "XT" => Val::Str(word(rng, 1, 10)),
                     _ => unreachable!(),
                 };
@@ -558,6 +604,13 @@ pub const DET_CLASSES: &[&str] = &[
     "multi-contig",
     "multi-sample",
     "multi-block",
+    // minimal sets for shapes the random part avoids because they hit understood defects
+    "witness-gt-mixed-ploidy",
+    "witness-gt-phased-missing-allele",
+    "witness-format-int-array-missing-in-all-samples",
+    "witness-info-missing-value",
+    "witness-sample-arrays-of-unequal-length",
+    "witness-sample-column-missing",
 ];
 
 pub const RANDOM_CLASSES: &[&str] = &["many-mixed", "multi-contig", "multi-sample", "one-with-sample", "sites-only", "header-only", "multi-block"];
@@ -624,6 +677,48 @@ pub fn make_set(class: &str, seed: u64) -> VSet {
             let n = rng.urange(900, 1300);
             let recs = (0..n).map(|_| rand_record(rng, &c, s.len(), true)).collect();
             (header_text(version, &c, &s, true), c, s, recs)
+        }
+        "witness-gt-mixed-ploidy"
+        | "witness-gt-phased-missing-allele"
+        | "witness-format-int-array-missing-in-all-samples"
+        | "witness-info-missing-value"
+        | "witness-sample-arrays-of-unequal-length"
+        | "witness-sample-column-missing" => {
+            let c = vec![("sq0".to_string(), 1000usize)];
+            let plain = || vec![(Some(0), false), (Some(1), false)];
+            let (s, gts): (Vec<String>, Vec<Vec<(Option<usize>, bool)>>) = match class {
+                // 0/1 next to 0/1/1: a sample with >= 2 alleles that is shorter than the longest one
+                "witness-gt-mixed-ploidy" => (mk_samples(2), vec![plain(), vec![(Some(0), false), (Some(1), false), (Some(1), false)]]),
+                // 0|. : a phased separator in front of a missing allele
+                "witness-gt-phased-missing-allele" => (mk_samples(1), vec![vec![(Some(0), false), (None, true)]]),
+                _ => (mk_samples(2), vec![plain(), plain()]),
+            };
+            // GT:AD with AD `.` in both samples / INFO `AC=.`
+            let second = if class == "witness-format-int-array-missing-in-all-samples" { ("AD", None) } else { ("DP", Some(Val::Int(7))) };
+            let info = if class == "witness-info-missing-value" { vec![("AC".to_string(), Val::IntArr(vec![None]))] } else { vec![("DP".to_string(), Val::Int(14))] };
+            let (format, samples): (Vec<String>, Vec<Vec<Option<Val>>>) = match class {
+                // GT:XV  0/1:1,2  0/1:3
+                "witness-sample-arrays-of-unequal-length" => (
+                    vec!["GT".into(), "XV".into()],
+                    vec![vec![Some(Val::Gt(plain())), Some(Val::IntArr(vec![Some(1), Some(2)]))], vec![Some(Val::Gt(plain())), Some(Val::IntArr(vec![Some(3)]))]],
+                ),
+                // DP  7  .
+                "witness-sample-column-missing" => (vec!["DP".into()], vec![vec![Some(Val::Int(7))], vec![None]]),
+                _ => (vec!["GT".into(), second.0.into()], gts.into_iter().map(|g| vec![Some(Val::Gt(g)), second.1.clone()]).collect()),
+            };
+            let r = Var {
+                chrom: "sq0".into(),
+                pos: 100,
+                ids: Vec::new(),
+                refb: "A".into(),
+                alts: vec!["C".into()],
+                qual: Some(30.0),
+                filters: Some(vec!["PASS".into()]),
+                info,
+                format,
+                samples,
+            };
+            (header_text("VCFv4.3", &c, &s, true), c, s, vec![r])
         }
         c => panic!("unknown variant set class {c}"),
     };
